@@ -59,10 +59,24 @@ pub fn get_rt(id: &str, thorough: bool) -> Option<PropDef> {
         "C03" => m::c03_replies,
         "C06" => m::c06_rt,
         "C07" => m3::c07_rt,
+        "C11" => m3::c11_rt,
         "C13" => m2::c13,
         _ => return None,
     };
     let mut profiles = c17.profiles;
+    if id == "C07" || id == "C11" {
+        for p in profiles.iter_mut() {
+            p.w_clone = 3;
+            p.w_drop = 4;
+            p.w_downgrade = 3;
+            p.w_upgrade = 4;
+            p.w_cloneweak = 1;
+            p.w_dropweak = 1;
+            p.w_probe = if id == "C11" { 5 } else { 1 };
+            p.w_probeweak = if id == "C11" { 5 } else { 1 };
+            p.p_end_drop = (1, 2);
+        }
+    }
     if id == "C06" {
         for p in profiles.iter_mut() {
             p.w_kill = 4;
@@ -76,6 +90,7 @@ pub fn get_rt(id: &str, thorough: bool) -> Option<PropDef> {
             "C03" => "C03",
             "C06" => "C06",
             "C07" => "C07",
+            "C11" => "C11",
             _ => "C13",
         },
         profiles,
@@ -83,7 +98,7 @@ pub fn get_rt(id: &str, thorough: bool) -> Option<PropDef> {
         labels: m3::c17_labels,
         nontrivial: &["two_blocking_callers_overlap", "mixed_client_kinds", "blocking_call_failed"],
         rule: "real-thread supplement: C17 scenario shapes on a multi_thread runtime with OS threads; only the interleaving-sound part of the oracle",
-        quick_cases: 40,
+        quick_cases: 120,
         thorough_cases: 300,
         tape_len: 400,
         log_polls: false,
